@@ -603,7 +603,7 @@ func oracleC18(op string, a []string) string {
 	case "plmn":
 		mcc, e1 := strconv.Atoi(a[2])
 		mnc, e2 := strconv.Atoi(a[3])
-		if e1 != nil || e2 != nil || mcc < 100 || mcc > 999 || mnc < 10 || mnc > 999 {
+		if e1 != nil || e2 != nil || mcc < 100 || mcc > 999 || mnc < 9 || mnc > 999 {
 			return skip
 		}
 		// the same digit order as every other PLMN encoder of the library (TS 24.008 10.5.1.13)
